@@ -199,6 +199,25 @@ OtDevOK(e) ==
   /\ ~e.completed
   /\ e.failedStage >= e.msg                   \* message k is decoded at stage k and consumed by round k + 1
 
+\* ---------------------------------------------------------------- one deviating signer, DKLs23 / Lindell22 on production curves (C04)
+\* One message of one round of party `dev` (a unicast for its recipient, or a broadcast identically for all) was altered in one CBOR
+\* leaf; everything else is honest code. Honest parties = the quorum without dev (dev's own later complaints are a deviator's).
+\*  - no party panics;
+\*  - every party an honest party blames is dev;
+\*  - whatever an aggregator returns is one common signature accepted by the library verifier and the independent one;
+\*  - the alteration is caught before a result is accepted: an honest party rejects, or every aggregator refuses.
+HonestRejects(e) == {i \in 1..Len(e.rejects) : e.rejects[i].party # e.dev}
+SignDevOK(e) ==
+  /\ e.applied /\ e.changed
+  /\ e.dev \in QuorumOf(e) /\ Authorised(e)
+  /\ \A i \in 1..Len(e.rejects) : ~e.rejects[i].panic /\ ~e.rejects[i].timeout
+  /\ \A i \in HonestRejects(e) : \A j \in 1..Len(e.rejects[i].blamed) : e.rejects[i].blamed[j] = e.dev
+  /\ Len(e.outs) > 0 => /\ \A i, j \in 1..Len(e.outs) : e.outs[i].tok = e.outs[j].tok
+                        /\ e.signed /\ e.verify_lib /\ e.verify_indep /\ ~e.verify_other_lib
+  /\ \/ HonestRejects(e) # {}
+     \/ (Len(e.outs) = 0 /\ Len(e.outErrs) > 0)                                \* the aggregators refuse
+     \/ (Len(e.rejects) > 0 /\ Len(e.outs) = 0)                                \* the run stopped without a result
+
 \* ----------------------------------------------------------------
 Check(e) ==
   CASE e.a = "hdr" -> TRUE
@@ -208,6 +227,7 @@ Check(e) ==
     [] e.a = "vole" -> VoleOK(e)
     [] e.a = "blsdev" -> BlsDevOK(e)
     [] e.a = "otdev" -> OtDevOK(e)
+    [] e.a = "signdev" -> SignDevOK(e)
     [] OTHER -> FALSE
 CaseOK == l <= Len(Trace) => Check(Trace[l])
 =============================================================================
